@@ -347,6 +347,8 @@ def run(ck):
     cg = single_def(conv, 'cg_sequence')
     ck.ob('TAB-helix', mod.loc(conv), cg is not None and 'SS_CG[' in u(cg) and 'for secstruct in sequence' in u(cg) and ' if ' not in u(cg),
           'every input class is translated through SS_CG, none skipped', key='TAB-helix|translate-all')
+    shared.runs_every_molecule(ck, 'vermouth/dssp/dssp.py', 'AnnotateMartiniSecondaryStructures', 'MPT-every-molecule')
+    shared.runs_every_molecule(ck, 'vermouth/dssp/dssp.py', 'AnnotateDSSP', 'MPT-every-molecule')
     ck.assume('the rewriting outcome for every string is not decided; only table shape, coverage and length preservation')
 
 
